@@ -19,26 +19,45 @@ def showAck : AckRes → String
   | .ok none => "ok" | .ok (some n) => s!"ok pub={n}" | .nopending => "nopending" | .mismatch => "mismatch"
   | .unknown => "unknown"
 
+def tagsOf (b : List (Nat × Nat)) : String := ids (b.map (·.1))
+
+/-- events of the operator's current deployment only (what a redeploy that discards the batcher would leave) -/
+def curOf (b : List (Nat × Nat)) (epoch : Nat) : List (Nat × Nat) := b.filter (·.2 == epoch)
+
+/-- `X` when the code's behaviour is what the property asks for, `X #spec Y #kf D45` when events of a previous
+deployment are involved (finding D45) -/
+def withSpec (x y : String) : String := if x == y then x else s!"{x} #spec {y} #kf D45"
+
+def flushedSuffix (b : List (Nat × Nat)) : String := if b.isEmpty then "" else s!" flushed={tagsOf b}"
+
+def staleStr (sp : Bool) (sr sb : List Nat) : String :=
+  let stale := (if sp then ["pending"] else []) ++ sr.map (fun i => s!"rec:{i}") ++ sb.map (fun i => s!"batch:{i}")
+  if stale.isEmpty then "none" else joinWith "+" stale
+
 def render : Out → String
   | .status st none => showStatus st
   | .status st (some d) => s!"{showStatus st} deploy o={ids d.ops} s={ids d.srs} ck={optNat d.ck}"
   | .done => "ok"
   | .nostart => "nostart"
-  | .started st ck asg sp sr =>
-      let stale := (if sp then ["pending"] else []) ++ sr.map (fun i => s!"rec:{i}")
-      s!"{showStatus st} start={optNat ck} as={ids asg} stale={if stale.isEmpty then "none" else joinWith "+" stale}"
+  | .started st ck asg sp sr sb =>
+      let pre := s!"{showStatus st} start={optNat ck} as={ids asg} stale="
+      withSpec (pre ++ staleStr sp sr sb) (pre ++ staleStr sp sr [])
   | .stopped => "stopped"
   | .retry => "retry"
   | .ckpt id srs => s!"ckpt {id} s={ids srs}"
   | .ack r => showAck r
   | .barOk => "ok"
-  | .barAcked none => "ok acked"
-  | .barAcked (some n) => s!"ok acked pub={n}"
-  | .barAckErr r => s!"ackerr {showAck r}"
+  | .barAcked pub b e =>
+      let pre := match pub with | none => "ok acked" | some n => s!"ok acked pub={n}"
+      withSpec (pre ++ flushedSuffix b) (pre ++ flushedSuffix (curOf b e))
+  | .barAckErr r b e =>
+      withSpec (s!"ackerr {showAck r}" ++ flushedSuffix b) (s!"ackerr {showAck r}" ++ flushedSuffix (curOf b e))
   | .barMismatch => "mismatch"
   | .barBlocked => "blocked"
   | .barNotReady => "notready"
-  | .barWouldPanic => "wouldpanic"
+  | .evQueued => "queued"
+  | .processed b e => withSpec s!"processed {tagsOf b}" s!"processed {tagsOf (curOf b e)}"
+  | .flushEmpty => "empty"
 
 def showState (s : St) : String :=
   let pend := match s.store.pending with
@@ -48,7 +67,9 @@ def showState (s : St) : String :=
     match (s.procs i).inflight with
     | some (id, waiting) => some s!"{i}:{id}/{ids waiting}"
     | none => none
-  s!"{showStatus s.status} reg=o{ids s.ops}:s{ids s.srs} asm=o{ids s.asmOps}:s{ids s.asmSrs} pend={pend} cur={optNat s.store.current} tick={if s.ticker then 1 else 0} rec={if recs.isEmpty then "-" else joinWith ";" recs}"
+  let bats := (List.range 10).filterMap fun i =>
+    if (s.procs i).batch.isEmpty then none else some s!"{i}:{tagsOf (s.procs i).batch}"
+  s!"{showStatus s.status} reg=o{ids s.ops}:s{ids s.srs} asm=o{ids s.asmOps}:s{ids s.asmSrs} pend={pend} cur={optNat s.store.current} tick={if s.ticker then 1 else 0} rec={if recs.isEmpty then "-" else joinWith ";" recs} bat={if bats.isEmpty then "-" else joinWith ";" bats}"
 
 def parse : List String → Option Act
   | ["reg", "o", i] => some (.regO (natOr i))
@@ -62,21 +83,89 @@ def parse : List String → Option Act
   | ["ack", "s", i, id] => some (.ackS (natOr i) (natOr id))
   | ["ack", "o", i, id] => some (.ackO (natOr i) (natOr id))
   | ["bar", i, s, id] => some (.bar (natOr i) (natOr s) (natOr id))
+  | ["ev", i, s, tag] => some (.ev (natOr i) (natOr s) (natOr tag))
+  | ["flush", i] => some (.flush (natOr i))
   | _ => none
 
-def stepLine (s : St) (ws : List String) : St × String :=
+/-- driver state: the model state plus what the real-worker ops need to know about worker processes (which exist,
+which have halted or stopped); worker `k` runs operator `k` and source runner `5 + k` -/
+structure DSt where
+  s : St
+  started : List Nat := []
+  gone : List Nat := []
+
+def DSt.live (d : DSt) (k : Nat) : Bool := d.started.contains k && !d.gone.contains k
+
+def shortBar : Out → String
+  | .barOk => "ok"
+  | .barAcked _ _ _ => "acked"
+  | .barAckErr r _ _ => s!"ackerr:{showAck r}"
+  | .barMismatch => "mismatch"
+  | .barBlocked => "blocked"
+  | .barNotReady => "notready"
+  | _ => "?"
+
+def pubOf : Out → Option Nat
+  | .barAcked p _ _ => p
+  | .ack (.ok p) => p
+  | _ => none
+
+/-- `rack k`: the runner's acknowledgement, then its barrier at every live operator of the assembly -/
+def rack (d : DSt) (k : Nat) : DSt × String :=
+  if !d.live k then (d, "none") else
+  match d.s.store.pending with
+  | none => (d, "none")
+  | some p =>
+    if !p.waitSrs.contains (5 + k) then (d, "none") else
+    let (s1, o1) := step d.s (.ackS (5 + k) p.id)
+    match o1 with
+    | .ack (.ok pub0) =>
+      let ops := d.s.asmOps.filter (fun i => d.live i)
+      let (s2, txt, pub) := ops.foldl (fun (acc : St × String × Option Nat) i =>
+        let (s', o) := step acc.1 (.bar i (5 + k) p.id)
+        (s', acc.2.1 ++ s!" b{i}={shortBar o}", (pubOf o).orElse fun _ => acc.2.2)) (s1, "ok", pub0)
+      ({ d with s := s2 }, txt ++ (match pub with | some n => s!" pub={n}" | none => ""))
+    | o => ({ d with s := s1 }, render o)
+
+def deployReal (d : DSt) : DSt × String :=
+  if d.s.status != .starting then (d, "nostart") else
+  let deadO := d.s.asmOps.findIdx? (fun i => !d.live i)
+  let deadS := d.s.asmSrs.findIdx? (fun i => !d.live (i - 5))
+  match deadO, deadS with
+  | none, none => let (s', o) := step d.s .deployOk; ({ d with s := s' }, render o)
+  | some v, _ => let (s', o) := step d.s (.deployFail v); ({ d with s := s' }, render o)
+  | none, some v => let (s', o) := step d.s (.deployFail (d.s.asmOps.length + v)); ({ d with s := s' }, render o)
+
+def two (d : DSt) (a b : Act) : DSt × String :=
+  let (s1, o1) := step d.s a
+  let (s2, o2) := step s1 b
+  ({ d with s := s2 }, render o1 ++ " ; " ++ render o2)
+
+def stepLine (d : DSt) (ws : List String) : DSt × String :=
   match ws with
-  | ["st"] => (s, showState s)
-  | ["hbx", _, _] => (s, "ok")   -- spec: C15.heartbeat_expiry_exact, evaluated on the real LivenessTracker
+  | ["st"] => (d, showState d.s)
+  | ["hbx", _, _] => (d, "ok")   -- spec: C15.heartbeat_expiry_exact, evaluated on the real LivenessTracker
+  | ["wstart", k] =>
+      let k := natOr k
+      if d.started.contains k || k > 4 then (d, "exists")
+      else two { d with started := k :: d.started } (.regO k) (.regS (5 + k))
+  | ["whb", k] => let k := natOr k; if d.live k then two d (.regO k) (.regS (5 + k)) else (d, "dead")
+  | ["wkill", k] => let k := natOr k; if d.live k then ({ d with gone := k :: d.gone }, "ok") else (d, "dead")
+  | ["wstop", k] =>
+      let k := natOr k
+      if d.live k then two { d with gone := k :: d.gone } (.deregS (5 + k)) (.deregO k) else (d, "dead")
+  | ["wdeploy"] => deployReal d
+  | ["rack", k] => rack d (natOr k)
   | _ =>
     match parse ws with
-    | some a => let (s', o) := step s a; (s', render o)
-    | none => (s, "bad-op")
+    | some a => let (s', o) := step d.s a; ({ d with s := s' }, render o)
+    | none => (d, "bad-op")
 
 def handle (lines : Array String) (i : Nat) (out : Array String) : Nat × Array String :=
   let st₀ := match words (lines.getD (i - 1) "") with
+    | _ :: _ :: w :: d :: c0 :: b :: _ => init (natOr w) (natOr d) (natOr c0) (natOr b)
     | [_, _, w, d, c0] => init (natOr w) (natOr d) (natOr c0)
     | _ => init 1 5 0
-  runLines stepLine st₀ lines i out
+  runLines stepLine { s := st₀ } lines i out
 
 end Driver.C15
